@@ -31,6 +31,14 @@ def matches(n, *sfx):
     return False
 
 
+def _key_order(k):
+    return (str(k[0]), str(k[1]), tuple(str(x) for x in k[2:]))
+
+
+def _lin_order(c):
+    return (c.t, c.c)
+
+
 def _collect_syms(v, out):
     if not isinstance(v, tuple):
         return
@@ -48,10 +56,11 @@ def _collect_syms(v, out):
 class StructInvariant:
     """declared invariant on a struct: lin over its integer fields / lengths of its sequence fields"""
 
-    def __init__(self, adt, build, desc):
+    def __init__(self, adt, build, desc, fields=()):
         self.adt = adt
         self.build = build      # f(intf_field -> Lin, len_field -> Lin) -> list of Lin (each <= 0)
         self.desc = desc
+        self.fields = tuple(fields)     # the fields the invariant speaks about: only functions touching one of them depend on it
 
 
 class Analyzer(Interp):
@@ -68,6 +77,16 @@ class Analyzer(Interp):
         self.no_inline = set()
         self.analyzed_standalone = set()
         self.frame_ids = {}
+        self.visited = set()       # (fn name, block) executed with a non-bottom state
+        self.nonconverged = set()
+        self._touch = None
+        self.keep_dead = False          # keep the last value of locals past StorageDead (used by rules that inspect named locals)
+        self.closure_ctx_only = set()   # closures analysed at their single call (through a modelled combinator)
+        self.closure_multi = set()
+        self.closure_types = None
+        self.scope = None          # set of function names the analysis may enter (None: all)
+        self.out_of_scope_calls = set()
+        self.pinned = set()        # symbols gc must keep (loop-head values during a ranking pass)
 
     # ================================================================== join / widening
     def rename(self, st, old, new):
@@ -126,7 +145,7 @@ class Analyzer(Interp):
         for s in sides:
             keys |= set(s.env)
         jsyms = {}
-        for key in keys:
+        for key in sorted(keys, key=_key_order):
             vals = [s.env.get(key, MISSING) for s in sides]
             if all(v == vals[0] for v in vals) and vals[0] is not MISSING:
                 env[key] = vals[0]
@@ -199,7 +218,7 @@ class Analyzer(Interp):
         allsyms = set()
         for s in sides:
             allsyms |= set(s.store.ranges)
-        for sym in allsyms:
+        for sym in sorted(allsyms):
             if sym in jsyms:
                 continue
             rs = [s.store.ranges.get(sym) for s in sides]
@@ -217,7 +236,7 @@ class Analyzer(Interp):
             common &= s.store._set
         cands = []
         seen = set(common)
-        for c in common:
+        for c in sorted(common, key=_lin_order):
             store.add(c)
 
         def addc(c):
@@ -253,37 +272,109 @@ class Analyzer(Interp):
 
     # ================================================================== function bodies
     def gc(self, st):
-        """drop facts about symbols no value refers to any more (keeps states comparable across loop rounds)"""
-        live = set()
+        """project the store onto the symbols some value still refers to (Fourier-Motzkin elimination of the dead
+        ones, bounded; beyond the bound the facts about the dead symbol are dropped, which is sound)"""
+        live = set(self.pinned)
         for v in st.env.values():
             _collect_syms(v, live)
         keep = lambda s: s in live or s.startswith("in:") or s.startswith("len:")
-        cons = [c for c in st.store.cons if all(keep(s) for s in c.syms())]
-        if len(cons) != len(st.store.cons):
+        dead = set()
+        for c in st.store.cons:
+            for s in c.syms():
+                if not keep(s):
+                    dead.add(s)
+        if dead:
+            cons = list(st.store.cons)
+            for s in sorted(dead):
+                pos, neg, rest = [], [], []
+                for c in cons:
+                    v = dict(c.t).get(s, 0)
+                    (pos if v > 0 else neg if v < 0 else rest).append(c)
+                lo, hi = st.store.ranges.get(s, (None, None))
+                if hi is not None and hi < (1 << 62):
+                    pos.append(Lin.sym(s).addc(-hi))
+                if lo is not None and lo != 0 or lo == 0:
+                    neg.append(Lin.sym(s).scale(-1).addc(lo or 0))
+                if len(pos) * len(neg) <= 16:
+                    for cp in pos:
+                        ap = dict(cp.t)[s]
+                        for cn in neg:
+                            an = -dict(cn.t)[s]
+                            r = cp.scale(an).add(cn.scale(ap))
+                            if r.is_const():
+                                if r.c > 0:
+                                    st.store.bottom = True
+                                continue
+                            if len(r.t) > 4:
+                                continue
+                            g = 0
+                            from math import gcd
+                            for _, v in r.t:
+                                g = gcd(g, abs(v))
+                            if g > 1:
+                                r = Lin({k: v // g for k, v in r.t}, -((-r.c) // g))
+                            if len(r.t) == 1:
+                                st.store.add(r)
+                            elif r not in rest:
+                                rest.append(r)
+                cons = rest
             st.store.cons = cons
             st.store._set = set(cons)
         for s in [s for s in st.store.ranges if not keep(s)]:
             del st.store.ranges[s]
         return st
 
+    def partition_by_tags(self, states, cap=4):
+        """group the states meeting at a join by the known variant tags on which they disagree (Option/Result/
+        ControlFlow values): keeps `let x = match .. {A => None, B => Some(read()?)}; if let Some(..) = x` and the
+        Ok/Err exits of a function correlated with their side effects.  More than `cap` groups: plain join."""
+        if len(states) < 2:
+            return [states]
+        keys = None
+        for s in states:
+            ks = {k for k, v in s.env.items() if isinstance(v, tuple) and v and v[0] == "opt" and v[1] is not None}
+            keys = ks if keys is None else keys & ks
+        diff = sorted((k for k in keys if len({s.env[k][1] for s in states}) > 1), key=repr)
+        if not diff:
+            return [states]
+        groups = {}
+        for s in states:
+            groups.setdefault(tuple(s.env[k][1] for k in diff), []).append(s)
+        if len(groups) > cap:
+            return [states]
+        return [groups[g] for g in sorted(groups)]
+
     def analyze_body(self, fn, frame, st0):
         """returns list of (state, ret value) at return points"""
+        exits, _back = self._worklist(fn, frame, 0, st0)
+        return exits
+
+    def analyze_region(self, fn, frame, head, st_head, body, cap=96):
+        """one abstract pass over the loop body starting from the loop-head state; the states arriving back at
+        `head` are returned separately per path (paths are merged only when their states are equal, or at inner
+        loop heads, or beyond `cap` states at one block)"""
+        _exits, back = self._worklist(fn, frame, head, st_head, region=body, stop=head, nojoin_cap=cap)
+        return back
+
+    def _worklist(self, fn, frame, start, st0, region=None, stop=None, nojoin_cap=0):
         rpo = fn._rpo()
         idx = {b: i for i, b in enumerate(rpo)}
         loops = fn.loops()
         heads = set(loops)
         edge = {}                   # (pred, succ) -> [states]
-        instate = {0: [st0]}
+        instate = {start: [st0]}
         rounds = {}
         exits = {}
-        pending = set([0])
+        back = []
+        pending = set([start])
         guard = 0
         processed = {}
+        first = True
         while pending and guard < 20000:
             guard += 1
             b = min(pending, key=lambda x: idx.get(x, 1 << 30))
             pending.discard(b)
-            if b != 0:
+            if not (first and b == start):
                 preds = [p for p in fn.preds(b) if edge.get((p, b))]
                 if not preds:
                     continue
@@ -295,21 +386,35 @@ class Analyzer(Interp):
                     prev = instate.get(b)
                     new = [self.gc(self.join(incoming, "%d:%s:%d" % (frame, fn.short[-20:], b), prev=prev[0] if prev else None,
                                             widen_round=rounds[b]))]
+                elif nojoin_cap:
+                    new, seen_sig = [], set()
+                    for s in incoming:
+                        s = self.gc(s.copy())
+                        sg = self.state_sig(s)
+                        if sg not in seen_sig:
+                            seen_sig.add(sg)
+                            new.append(s)
+                    if len(new) > nojoin_cap:
+                        new = [self.gc(self.join(new, "%d:%s:%d" % (frame, fn.short[-20:], b)))]
                 elif len(preds) == 1 and len(incoming) <= 4:
                     new = [s.copy() for s in incoming]          # keep partitions along straight-line code
                 else:
-                    new = [self.gc(self.join(incoming, "%d:%s:%d" % (frame, fn.short[-20:], b)))]
+                    new = []
+                    for gi, grp in enumerate(self.partition_by_tags(incoming)):
+                        new.append(self.gc(self.join(grp, "%d:%s:%d%s" % (frame, fn.short[-20:], b, ".p%d" % gi if gi else ""))))
                 sig = tuple(self.state_sig(s) for s in new)
                 if processed.get(b) == sig:
                     continue
                 processed[b] = sig
                 instate[b] = new
+            first = False
             outs_by_succ = {}
             rets = []
             for st_in in instate[b]:
                 st = st_in.copy()
                 if st.bottom:
                     continue
+                self.visited.add((fn.name, b))
                 for (succ, s2, ret) in self.exec_block(fn, frame, b, st):
                     if succ is None:
                         if ret is not None:
@@ -317,18 +422,28 @@ class Analyzer(Interp):
                         continue
                     if s2.bottom:
                         continue
+                    if nojoin_cap:
+                        s2.trail = s2.trail + ((b, succ),)
                     outs_by_succ.setdefault(succ, []).append(s2)
             exits[b] = rets
             for succ in fn.succs(b):
                 new_states = outs_by_succ.get(succ, [])
+                if stop is not None and succ == stop:
+                    back.extend((b, s) for s in new_states)
+                    continue
+                if region is not None and succ not in region:
+                    continue
                 if new_states or (b, succ) in edge:
                     edge[(b, succ)] = new_states
                     pending.add(succ)
-        self.loop_states[(fn.name, frame)] = (instate, edge)
+        if guard >= 20000:
+            self.nonconverged.add(fn.name)
+        if region is None:
+            self.loop_states[(fn.name, frame)] = (instate, edge)
         out = []
         for b in sorted(exits):
             out.extend(exits[b])
-        return out
+        return out, back
 
     def exec_block(self, fn, frame, b, st):
         self.cur = "%d:%s:%d" % (frame, fn.short[-24:], b)
@@ -356,6 +471,10 @@ class Analyzer(Interp):
                 key, left = self.resolve(st, frame, s["p"])
                 if not left:
                     self.write_key(st, key, TOP)
+            elif k == "dead" and not self.keep_dead:
+                l = s["l"]
+                for key in [key for key in st.env if key[0] == frame and key[1] == l]:
+                    del st.env[key]
             elif k == "assume":
                 v = self.operand(st, frame, s["a"])
                 if v[0] == "bool":
@@ -590,27 +709,67 @@ class Analyzer(Interp):
         return True
 
     def call_local(self, fn, frame, b, t, st, callee):
-        if len(self.inline_stack) < self.inline_depth and self.inlinable(callee):
+        in_scope = self.scope is None or callee.name in self.scope
+        if in_scope and len(self.inline_stack) < self.inline_depth and self.inlinable(callee):
             return self.inline(fn, frame, b, t, st, callee)
         # not inlined: the callee is analysed on its own; check declared invariants as preconditions,
         # havoc what it writes, assume invariants afterwards
         self.check_invariants_at_call(fn, frame, b, t, st, callee)
         self.havoc_call(fn, frame, b, t, st, [callee.name])
-        self.assume_invariants_after_call(fn, frame, b, t, st, callee)
-        rv = self.default_noentry(st, t["dest"]["ty"])
-        self.set_dest(st, frame, t, rv)
-        self.need_standalone(callee)
+        if in_scope:
+            self.need_standalone(callee)
+        else:
+            self.out_of_scope_calls.add(callee.name)
         tgt = t.get("target")
         if tgt is None:
             return []
+        dty = t["dest"]["ty"]
+        if opt_family(dty) == "Result" and self.invariants:
+            # the callee re-establishes declared invariants at its non-error exits only: split on the result tag
+            st_err = st.copy()
+            self.assume_invariants_after_call(fn, frame, b, t, st, callee)
+            rv = self.default_noentry(st, dty)
+            self.set_dest(st, frame, t, ("opt", "Ok", rv[2] if rv[0] == "opt" else None, "Result"))
+            rv2 = self.default_noentry(st_err, dty)
+            self.set_dest(st_err, frame, t, ("opt", "Err", None, "Result"))
+            return [(tgt, st, None), (tgt, st_err, None)]
+        self.assume_invariants_after_call(fn, frame, b, t, st, callee)
+        rv = self.default_noentry(st, dty)
+        self.set_dest(st, frame, t, rv)
         return [(tgt, st, None)]
 
     def need_standalone(self, callee):
         if callee.name not in self.analyzed_standalone:
             self.pending_standalone.add(callee.name)
 
-    def inline(self, fn, frame, b, t, st, callee):
-        fk = (frame, fn.name, b, callee.name)
+    def copy_subtree(self, st, src_key, dst_key):
+        """by-value move/copy of an aggregate: its tracked components are copied under the new root"""
+        n = len(src_key[2])
+        for k in [k for k in st.env if k[0] == src_key[0] and k[1] == src_key[1] and k[2][:n] == src_key[2]]:
+            st.env[(dst_key[0], dst_key[1], dst_key[2] + k[2][n:])] = st.env[k]
+            if k in self.ktype:
+                self.ktype[(dst_key[0], dst_key[1], dst_key[2] + k[2][n:])] = self.ktype[k]
+        bk = ("bnd",) + src_key
+        if bk in st.env:
+            st.env[("bnd",) + dst_key] = st.env[bk]
+
+    def bind_arg(self, st, frame, o, f2, i, ty):
+        """bind operand o (of the caller's frame) to parameter i of callee frame f2"""
+        v = self.operand(st, frame, o) if o is not None else TOP
+        if v[0] == "havoc":
+            v = self.default_noentry(st, ty)
+        self.ktype[(f2, i, ())] = ty
+        if (v is TOP or v[0] == "top") and o is not None and o.get("k") in ("copy", "move"):
+            key, left = self.resolve(st, frame, o["p"])
+            if not left:
+                self.copy_subtree(st, key, (f2, i, ()))
+                return
+        st.env[(f2, i, ())] = v
+
+    def inline_core(self, fn, frame, b, tagname, st, callee, bind):
+        """run callee's body in a fresh (deterministically numbered) frame; bind(st, f2) sets the parameters.
+        Returns [(state, return value)] with the callee frame removed."""
+        fk = (frame, fn.name, b, tagname)
         f2 = self.frame_ids.get(fk)
         if f2 is None:
             self.frames += 1
@@ -619,13 +778,7 @@ class Analyzer(Interp):
         for k in [k for k in st.env if k[0] == f2]:
             del st.env[k]
         saved_cur, saved_ctr = self.cur, self.symctr
-        # bind parameters
-        for i in range(callee.argc):
-            v = self.arg(st, frame, t, i) if i < len(t["args"]) else TOP
-            if v[0] == "havoc":
-                v = self.default_noentry(st, callee.local_ty(i + 1))
-            st.env[(f2, i + 1, ())] = v
-            self.ktype[(f2, i + 1, ())] = callee.local_ty(i + 1)
+        bind(st, f2)
         self.inline_stack.append(callee.name)
         self.stack.append("%s@%s" % (callee.short, fn.loc(b)))
         try:
@@ -634,22 +787,26 @@ class Analyzer(Interp):
             self.inline_stack.pop()
             self.stack.pop()
             self.cur, self.symctr = saved_cur + "r", saved_ctr
+        out = []
+        for (s2, rv) in exits:
+            for k in [k for k in s2.env if k[0] == f2]:
+                del s2.env[k]
+            if rv is not None and rv[0] == "ptr" and rv[1][0] == f2:
+                rv = None
+            out.append((s2, rv))
+        return out
+
+    def finish_call(self, fn, frame, b, t, exits, tagname):
+        """write the return values into the call's destination and partition the exits by returned tag"""
         tgt = t.get("target")
         if tgt is None or not exits:
             return []
-        outs = []
         sts = []
-        for (s2, rv) in exits:
-            # drop callee frame keys, keep caller's
-            rv2 = rv
-            for k in [k for k in s2.env if k[0] == f2]:
-                del s2.env[k]
+        for (s2, rv2) in exits:
             key, left = self.resolve(s2, frame, t["dest"])
             if not left:
                 self.ktype[key] = t["dest"]["ty"]
                 if rv2 is None or rv2[0] in ("havoc",):
-                    rv2 = self.default_noentry(s2, t["dest"]["ty"])
-                if rv2[0] == "ptr" and rv2[1][0] == f2:
                     rv2 = self.default_noentry(s2, t["dest"]["ty"])
                 if rv2[0] == "agg":
                     rv2 = TOP
@@ -665,8 +822,90 @@ class Analyzer(Interp):
             groups.setdefault(g, []).append(s2)
         outs = []
         for g in sorted(groups):
-            outs.append((tgt, self.gc(self.join(groups[g], "%d:%s:%d:ret%s" % (frame, fn.short[-20:], b, g))), None))
+            outs.append((tgt, self.gc(self.join(groups[g], "%d:%s:%d:%s:ret%s" % (frame, fn.short[-20:], b, tagname[-12:], g))), None))
         return outs
+
+    def inline(self, fn, frame, b, t, st, callee):
+        def bind(st_, f2):
+            for i in range(callee.argc):
+                o = t["args"][i] if i < len(t["args"]) else None
+                self.bind_arg(st_, frame, o, f2, i + 1, callee.local_ty(i + 1))
+        exits = self.inline_core(fn, frame, b, callee.name, st, callee, bind)
+        return self.finish_call(fn, frame, b, t, exits, callee.name)
+
+    # ------------------------------------------------------------------ closures handed to std combinators
+    def closure_of_operand(self, fn, o):
+        """the closure body (Fn) behind a call operand whose type is a closure type, or None"""
+        if o is None or o.get("k") not in ("copy", "move"):
+            return None
+        if self.closure_types is None:
+            self.closure_types = {}
+            for f in self.P.fns.values():
+                if f.j.get("closure") and f.argc >= 1:
+                    ty = f.local_ty(1)
+                    ty = ty[1:].lstrip() if ty.startswith("&") else ty
+                    ty = ty[4:] if ty.startswith("mut ") else ty
+                    self.closure_types.setdefault(ty, []).append(f)
+        ty = o["p"]["ty"]
+        ty = ty[1:].lstrip() if ty.startswith("&") else ty
+        ty = ty[4:] if ty.startswith("mut ") else ty
+        c = self.closure_types.get(ty) or []
+        return c[0] if len(c) == 1 else None
+
+    def single_use_closure(self, fn, o):
+        """the closure value is created for this call only: its local has no other use in the function"""
+        l = o["p"]["l"]
+        if o["p"].get("proj"):
+            return False
+        uses = 0
+        for b in range(fn.n):
+            for s in fn.stmts(b):
+                if s["k"] != "assign":
+                    continue
+                r = s["r"]
+                for x in ([r.get("a"), r.get("b")] + list(r.get("ops") or ())):
+                    if isinstance(x, dict) and x.get("k") in ("copy", "move") and x["p"]["l"] == l:
+                        uses += 1
+                if isinstance(r.get("p"), dict) and r["p"]["l"] == l:
+                    uses += 1
+            tt = fn.term(b)
+            for x in tt.get("args") or ():
+                if isinstance(x, dict) and x.get("k") in ("copy", "move") and x["p"]["l"] == l:
+                    uses += 1
+        return uses == 1
+
+    def call_closure(self, fn, frame, b, t, st, argi, values):
+        """apply the closure passed as argument argi of call t to `values`; returns [(state, result)] or None when
+        the closure body is not available / not inlinable (callers then fall back to havoc)"""
+        o = t["args"][argi] if argi < len(t["args"]) else None
+        c = self.closure_of_operand(fn, o)
+        if c is None or c.name in self.inline_stack or len(self.inline_stack) >= self.inline_depth + 1:
+            return None
+        if c.n > 4 * self.max_inline_blocks:
+            return None
+        if c.argc != 1 + len(values):
+            return None
+        if self.single_use_closure(fn, o):
+            self.closure_ctx_only.add(c.name)
+        else:
+            self.closure_multi.add(c.name)
+
+        def bind(st_, f2):
+            envty = c.local_ty(1)
+            self.ktype[(f2, 1, ())] = envty
+            key, left = self.resolve(st_, frame, o["p"])
+            if envty.startswith("&"):
+                if not left:
+                    st_.env[(f2, 1, ())] = ("ptr", key)
+            elif not left:
+                self.copy_subtree(st_, key, (f2, 1, ()))
+            for i, v in enumerate(values):
+                ty = c.local_ty(i + 2)
+                self.ktype[(f2, i + 2, ())] = ty
+                if v is None or v is TOP or v[0] in ("havoc", "top"):
+                    v = self.default_noentry(st_, ty)
+                st_.env[(f2, i + 2, ())] = v
+        return self.inline_core(fn, frame, b, "closure:%d:%s" % (argi, c.name), st, c, bind)
 
     # ------------------------------------------------------------------ struct invariants
     def _inv_lins(self, st, key, inv, tys):
@@ -703,11 +942,62 @@ class Analyzer(Interp):
                         if l is not None:
                             st.store.add(l)
 
+    def touches_invariant(self, callee, inv):
+        """does the callee (transitively) read or write a field the invariant mentions?  A function that never
+        touches them can neither rely on the invariant nor break it."""
+        if not inv.fields:
+            return True
+        if self._touch is None:
+            direct = {}
+            for f in self.P.fns.values():
+                s = set()
+                def scan_place(p):
+                    for pe in p.get("proj") or ():
+                        if pe[0] == "field" and pe[2] and pe[4]:
+                            s.add((pe[4], pe[2]))
+                def scan_op(o):
+                    if isinstance(o, dict) and "p" in o and isinstance(o["p"], dict):
+                        scan_place(o["p"])
+                for b in range(f.n):
+                    for st_ in f.stmts(b):
+                        if st_["k"] in ("assign", "setdiscr"):
+                            scan_place(st_["p"])
+                        r = st_.get("r")
+                        if isinstance(r, dict):
+                            if "p" in r and isinstance(r["p"], dict):
+                                scan_place(r["p"])
+                            for o in (r.get("a"), r.get("b")):
+                                scan_op(o)
+                            for o in r.get("ops") or ():
+                                scan_op(o)
+                    tt = f.term(b)
+                    for o in tt.get("args") or ():
+                        scan_op(o)
+                    if "dest" in tt:
+                        scan_place(tt["dest"])
+                    scan_op(tt.get("d"))
+                direct[f.name] = s
+            cg = self.P.callgraph()
+            trans = {n: set(v) for n, v in direct.items()}
+            changed = True
+            while changed:
+                changed = False
+                for n, outs in cg.items():
+                    cur = trans.setdefault(n, set())
+                    k0 = len(cur)
+                    for o in outs:
+                        cur |= trans.get(o, set())
+                    if len(cur) != k0:
+                        changed = True
+            self._touch = trans
+        acc = self._touch.get(callee.name, set())
+        return any(o.endswith(inv.adt.split("::")[-1]) and f in inv.fields for (o, f) in acc)
+
     def check_invariants_at_call(self, fn, frame, b, t, st, callee):
         for i in range(min(callee.argc, len(t["args"]))):
             adt = self._adt_of_ty(callee.local_ty(i + 1))
             for inv in self.invariants:
-                if inv.adt == adt:
+                if inv.adt == adt and self.touches_invariant(callee, inv):
                     v = self.arg(st, frame, t, i)
                     if v[0] != "ptr":
                         continue
